@@ -137,7 +137,8 @@ def generators(tier, seed):
 
 
 def plan(tier, seed):
-    return [dict(key="gen/" + g["label"], gen=g["label"], seed=seed, tier=tier, cost=5) for g in generators(tier, seed)] + [dict(key="scaling", gen="scaling", seed=seed, tier=tier, cost=3), dict(key="unattached-points", gen="unattached", seed=seed, tier=tier, cost=3)]
+    return [dict(key="gen/" + g["label"], gen=g["label"], seed=seed, tier=tier, cost=5) for g in generators(tier, seed)] + [dict(key="scaling", gen="scaling", seed=seed, tier=tier, cost=3), dict(key="unattached-points", gen="unattached", seed=seed, tier=tier, cost=3),
+                                                                                                                                         dict(key="large-index-dtypes", gen="large", seed=seed, tier=tier, cost=8)]
 
 
 def run_scaling(case):
@@ -245,6 +246,54 @@ def run_unattached(case):
                 digest=f"{len(nontrivial)}/{len(viol)}", capped=False)
 
 
+def run_large(case):
+    """meshes with more than 46341 points (npoints squared exceeds 2^31) whose connectivity is stored as 64-bit or 32-bit integers
+    (files with 32-bit connectivity, explicit astype): mid-point insertion and order conversion keep the vertices, insert the
+    edge centroids, leave no duplicate points, keep volume and orientation"""
+    import felupe as fem
+
+    key = case["key"]
+    viol, nontrivial = [], []
+    ntrans = 0
+
+    def bad(sub, what, obs, exp, tol=0):
+        if len(viol) < 40:
+            viol.append(dict(key=f"{key}/{sub}", what=what, observed=obs, expected=exp, tol=tol))
+
+    bases = {"quad": fem.Rectangle(n=218), "triangle": fem.Rectangle(n=218).triangulate()}
+    if case["tier"] == "thorough":
+        bases["hexahedron"] = fem.Cube(n=37)
+    for ct, base in bases.items():
+        for dt in (np.int64, np.int32):
+            m = fem.Mesh(base.points, base.cells.astype(dt), base.cell_type)
+            v0 = measure(m)
+            for oname in ("add_midpoints_edges", "convert2"):
+                sub = f"{ct}/npoints={m.npoints}/cells={np.dtype(dt).name}>{oname}"
+                try:
+                    new = m.convert(order=2) if oname == "convert2" else m.add_midpoints_edges()
+                except Exception as ex:  # noqa
+                    bad(sub + "/exception", "operation raised on a valid large mesh", repr(ex)[:160], "a mesh")
+                    continue
+                ntrans += 1
+                nv = m.cells.shape[1]
+                if not np.array_equal(new.cells[:, :nv], m.cells) or not np.array_equal(new.points[: len(m.points)], m.points):
+                    bad(sub + "/vertices", "vertices / vertex connectivity changed by inserting mid-points", "changed", "unchanged")
+                    continue
+                nb = len(viol)
+                _midpoint_check(bad, sub, m, new)
+                if len(viol) > nb:
+                    continue
+                u = np.unique(np.round(new.points, 9), axis=0)
+                if len(u) != new.npoints:
+                    bad(sub + "/duplicate-points", "duplicate points after inserting mid-points", int(new.npoints - len(u)), 0)
+                v1 = measure(new)
+                if v0 is not None and v1 is not None and (abs(v1[0] - v0[0]) > 1e-10 * max(abs(v0[0]), 1.0) or v1[1] <= 0):
+                    bad(sub + "/volume", "covered volume / orientation after inserting mid-points", list(v1[:2]), list(v0[:2]), 1e-10)
+                nontrivial.append(sub)
+    return dict(viol=viol, states=len(nontrivial), transitions=ntrans, traces=len(nontrivial), nontrivial=nontrivial, outcomes=[f"large-variants={len(nontrivial)}"], sample=dict(case=key),
+                digest=f"{len(nontrivial)}/{len(viol)}", capped=False)
+
+
 # ----------------------------------------------------------------------------- operations
 LINEAR = ("line", "quad", "hexahedron", "triangle", "tetra")
 
@@ -296,6 +345,12 @@ def operations(mesh, tier):
         op("flip.flip", lambda m: m.flip().flip(), post="identity-cells")
         mask = np.arange(mesh.ncells) % 2 == 0
         op("flip(mask).flip(mask)", lambda m, mask=mask: m.flip(mask).flip(mask), post="identity-cells")
+    # dual meshes (the meshes of the pressure / volume-ratio fields of mixed formulations): connectivity only, judged for what
+    # they leave behind on the mesh they were derived from
+    for ppc in (None, 1):
+        for disc in (True, False):
+            for off in (0, 3):
+                op(f"dual(points_per_cell={ppc},disconnect={disc},offset={off})", lambda m, ppc=ppc, disc=disc, off=off: m.dual(points_per_cell=ppc, disconnect=disc, offset=off), post="input-only")
     if ct == "quad":
         op("triangulate", lambda m: m.triangulate())
         op("expand(n=3,z=1.5)", lambda m: m.expand(n=3, z=1.5), lambda v, m: v * 1.5)
@@ -420,6 +475,8 @@ def run(case):
         return run_scaling(case)
     if case["gen"] == "unattached":
         return run_unattached(case)
+    if case["gen"] == "large":
+        return run_large(case)
     tier, seed = case["tier"], case["seed"]
     key = case["key"]
     gen = [g for g in generators(tier, seed) if g["label"] == case["gen"]][0]
@@ -486,6 +543,7 @@ def run(case):
         nxt = []
         for prog, mesh, expected, base, mtol in frontier:
             for (label, fn, meas, post) in operations(mesh, tier):
+                pts_before, cells_before = mesh.points.copy(), mesh.cells.copy()
                 try:
                     with warnings.catch_warnings():
                         warnings.simplefilter("ignore")
@@ -496,6 +554,14 @@ def run(case):
                     continue
                 st["trans"] += 1
                 sub = "prog=" + ">".join(prog + (label,))
+                # a transformation returns a NEW mesh: the mesh it was applied to still covers what it covered before
+                st["traces"] += 1
+                if not (np.array_equal(mesh.cells, cells_before) and np.array_equal(mesh.points, pts_before)):
+                    bad(sub + "/input-mesh-changed", "the mesh a transformation was applied to was modified (points / cells), i.e. what it covers changed", "modified", "unchanged")
+                    mesh.points[...] = pts_before
+                    mesh.cells[...] = cells_before
+                if post == "input-only":
+                    continue
                 nbase = new.cell_type if new.cell_type in LINEAR else base
                 ntol = mtol
                 if post and post.startswith("merge") and post != "merge:None":
